@@ -119,6 +119,23 @@ def run_virtual(coro_fn, *args, **kwargs):
     result = None
     error: BaseException | None = None
     main = loop.create_task(coro_fn(*args, **kwargs))
+    # Watchdog for SYNCHRONOUS loops in the code under test (a reducer that never returns never comes back to the selector, so the
+    # selector-side guards above cannot see it): a real-time alarm, twice the per-case budget, raises Runaway inside whatever is running.
+    hit = {"alarm": False}
+    armed = False
+    old_handler = None
+    try:
+        import signal as _signal
+
+        def _on_alarm(_signum, _frame):
+            hit["alarm"] = True
+            raise Runaway(f"case exceeded {2 * CASE_REAL_SECONDS}s real time inside one callback (synchronous loop) at t={VClock.t}")
+
+        old_handler = _signal.signal(_signal.SIGALRM, _on_alarm)
+        _signal.setitimer(_signal.ITIMER_REAL, 2 * CASE_REAL_SECONDS)
+        armed = True
+    except (ValueError, AttributeError, OSError):  # not the main thread / no SIGALRM: no watchdog
+        armed = False
     try:
         try:
             result = loop.run_until_complete(main)
@@ -127,6 +144,15 @@ def run_virtual(coro_fn, *args, **kwargs):
         except BaseException as e:  # noqa: BLE001
             error = e
     finally:
+        if armed:
+            try:
+                _signal.setitimer(_signal.ITIMER_REAL, 0)
+                _signal.signal(_signal.SIGALRM, old_handler if old_handler is not None else _signal.SIG_DFL)
+            except (ValueError, OSError):
+                pass
+        if hit["alarm"] and not isinstance(error, Runaway):
+            # asyncio stores a BaseException raised inside a task on that task; make sure the case still ends as a runaway
+            error = Runaway(f"case exceeded {2 * CASE_REAL_SECONDS}s real time inside one callback (synchronous loop)")
         try:
             for _ in range(8):
                 pending = [t for t in asyncio.all_tasks(loop) if not t.done()]
